@@ -201,11 +201,11 @@ def attach_all(run, rt):
     import cnvlib
     import cnvlib.call as C
     import cnvlib.commands as K
-    traced = [("call.do_call", C.do_call), ("call.absolute_threshold", C.absolute_threshold), ("call._log2_ratio_to_absolute", C._log2_ratio_to_absolute),
-              ("call._log2_ratio_to_absolute_pure", C._log2_ratio_to_absolute_pure), ("call.log2_ratios", C.log2_ratios),
-              ("call.absolute_clonal", C.absolute_clonal), ("call.absolute_pure", C.absolute_pure), ("call._reference_copies_pure", C._reference_copies_pure),
-              ("call.get_as_dframe_and_set_reference_and_expect_copies", C.get_as_dframe_and_set_reference_and_expect_copies),
-              ("call.rescale_baf", C.rescale_baf)]
+    traced = [("call.do_call", rt.opt(C, "do_call")), ("call.absolute_threshold", rt.opt(C, "absolute_threshold")), ("call._log2_ratio_to_absolute", rt.opt(C, "_log2_ratio_to_absolute")),
+              ("call._log2_ratio_to_absolute_pure", rt.opt(C, "_log2_ratio_to_absolute_pure")), ("call.log2_ratios", rt.opt(C, "log2_ratios")),
+              ("call.absolute_clonal", rt.opt(C, "absolute_clonal")), ("call.absolute_pure", rt.opt(C, "absolute_pure")), ("call._reference_copies_pure", rt.opt(C, "_reference_copies_pure")),
+              ("call.get_as_dframe_and_set_reference_and_expect_copies", rt.opt(C, "get_as_dframe_and_set_reference_and_expect_copies")),
+              ("call.rescale_baf", rt.opt(C, "rescale_baf"))]
     rt.attach(C, "do_call", name="call.do_call", pre=pre_do_call, post=post_do_call, on_exc=exc_do_call,
               also=[(K, "do_call"), (cnvlib, "do_call")])
     rt.attach(C, "absolute_threshold", name="call.absolute_threshold", pre=pre_abs_threshold, post=post_abs_threshold)
